@@ -39,6 +39,24 @@ PROPS['C13'] = dict(
 )
 
 
+PROPS['C12'] = dict(
+    category='other',
+    technique='Kani full-domain loop-free contracts on the constructors / redundancy tests; Verus contracts on the pending-group state machine; Kani text-template harness for the line parser (bounded)',
+    level_text='constructors, clamps, flag codec and redundancy tests proved (Kani, every bit pattern of every argument); pending-group state machine proved (Verus, unbounded); the line parser is a bounded stand-in over listed text templates with nondeterministic numeric results',
+    level_note='assumed: str::parse / dec2flt (digit strings to numbers) is replaced by a nondeterministic value constrained by the proved parse_with_limits contract; text shapes outside the templates are not decided; ordering of the result lists is C13',
+    verus=[dict(unit='c12', tier='quick')],
+    kani=['support.kc', 'c12_points.kc', 'tp_lines.kc'],
+    kani_functions=['src/section/timing_points/control_points/timing.rs :: TimingPoint::new, TimeSignature::new, Default',
+                    'src/section/timing_points/control_points/difficulty.rs :: DifficultyPoint::new, is_redundant, Default',
+                    'src/section/timing_points/control_points/effect.rs :: EffectPoint::new, is_redundant, Default',
+                    'src/section/timing_points/control_points/sample.rs :: SamplePoint::new, is_redundant, Default',
+                    'src/section/timing_points/effect_flags.rs :: EffectFlags::has_flag, From<i32>'],
+    explanation='see level_text; per-obligation statements are in coverage.samples[].states',
+    trusted_base=COMMON_TRUST,
+    assumptions=[],
+    not_decided=['sequences of lines end-to-end against an independent model (composition of the per-function contracts is the contract-level argument)'],
+)
+
 NOT_APPLICABLE = {
     'C02': 'whole-text round trip through core::fmt float printing and dec2flt: no contract on one function links encode output to decode input, and neither verifier executes fmt/parse on symbolic values; the expressible codec-pair lemmas are decided under C11/C13/C14/C04',
     'C03': 'same as C02 (edited values travel through write! and str::parse); the first-colon rule it singles out is a contract on KeyValue::parse decided under C11',
